@@ -12,6 +12,7 @@ pub mod c11;
 pub mod c12;
 pub mod c13;
 pub mod c14;
+pub mod c20;
 
 pub struct Prop {
     pub id: &'static str,
@@ -35,6 +36,7 @@ pub fn all() -> Vec<Prop> {
         Prop { id: "C11", run: c11::run, subs: c11::subs, rule: c11::RULE, assumptions: c11::ASSUMPTIONS },
         Prop { id: "C14", run: c14::run, subs: c14::subs, rule: c14::RULE, assumptions: c14::ASSUMPTIONS },
         Prop { id: "C13", run: c13::run, subs: c13::subs, rule: c13::RULE, assumptions: c13::ASSUMPTIONS },
+        Prop { id: "C20", run: c20::run, subs: c20::subs, rule: c20::RULE, assumptions: c20::ASSUMPTIONS },
     ]
 }
 
